@@ -1,5 +1,6 @@
 import SaphyrModel.Sc.KS.Final
 import SaphyrModel.Proofs.TermRun
+import SaphyrModel.Props.C17
 import SaphyrModel.Props.C02
 import SaphyrModel.Props.C07
 import SaphyrModel.Props.C11
@@ -75,6 +76,16 @@ theorem parser_terminates (toks : List Token) (scanErr : Option ScanError) (eof 
     ⟨by simp [Api.init, PState.init, R, R'], rfl, by simp [Api.init, PState.init], by simp [Api.init]⟩
   apply iterate_terminates fuel _ _ hinv
   simp only [need, Api.init, Bool.false_eq_true, ↓reduceIte, phi_init]; omega
+
+/-- **The push interface terminates and reaches no panic site**, for every token list: `Parser::load`
+    (multi-document) given `16·|tokens| + 2` loop iterations returns `Ok` or an error value — its
+    `unreachable!` arms and its `assert_eq!` are never reached (corollary of `C17.push_eq_pull`). -/
+theorem push_terminates (toks : List Token) (scanErr : Option ScanError) (eof : Marker) (keep : Bool)
+    (n : Nat) (hn : 16 * toks.length + 2 ≤ n) (x : PanicSite) :
+    load true n ⟨Api.init (PState.init toks scanErr eof keep), []⟩ ≠ .panic x := by
+  intro h
+  have := C17.push_eq_pull toks scanErr eof keep n hn
+  simp only [h] at this
 
 /-- one step of the state machine, any state: the potential strictly decreases -/
 theorem parser_step_decreases (p : PState) (hne : p.state ≠ .end) (e : Event) (sp : Span) (p' : PState)
